@@ -141,6 +141,12 @@ theorem c15_evict_only_lru (c : Cfg) (ops : List (Op V)) (k : String) (v : V) (t
     have : (run c ops).length ≤ c.maxsize.toNat := hcap
     omega
 
+/-- `capVictims` (the hypothesis of `c15_evict_only_lru`, the ghost of `c15_get_latest`) is exactly what the
+    `while len(self._data) > self._maxsize: popitem(last=False)` loop pops: a prefix of the dict in recency order. -/
+theorem c15_victims_are_popped (c : Cfg) (d : List (Entry V)) (k : String) (v : V) (ttl : Option Int) (now1 now2 : Time) :
+    capVictims c d (.set k v ttl now1 now2) ++ evictLoop c.maxsize (inserted d k v ttl now1) = inserted d k v ttl now1 :=
+  capVictims_append c d k v ttl now1 now2
+
 /-- **Exactly LRU when nothing expires.**  In a history whose `set`s carry no positive ttl, whatever
     the clock does: a key is held iff it is bound and was not evicted for capacity; a `get` returns
     the latest value unless the key was deleted, cleared or evicted (and the victims are the least
